@@ -77,6 +77,9 @@ func runC03(c *ctx) error {
 		evs := d.GenEvents(o)
 		pub, unpub := d.Place(evs, o)
 		h := &world.History{Level: 1, Pub: pub, Unpub: unpub}
+		if i%3 == 1 {
+			r.Count("via_additional_operations_option", fmt.Sprint(h.ViaOption(env.rng) > 0))
+		}
 		oc := h.Run(env.pc, env.tb, oidOf)
 		r.Count("length", fmt.Sprint(len(evs)))
 		for _, e := range evs {
